@@ -6,6 +6,11 @@ integer and bool literals, + - * / % unary -, comparisons, && || !, casts betwee
 one-field value classes (translated as their underlying integer: constructor = the cast its
 mem-initialiser performs, getters/conversion operators = identity), small aggregates of those (tuples),
 `constexpr` tables indexed through a checked accessor, and calls to other translated functions.
+Job kinds beyond plain declarations (SPEC_KINDS, used by the C10 job set): "FunctionSpec" = a specialization of a function
+template (`if constexpr` = the branch the instantiation kept), "Functor" = a specialization of a class template with a
+constructor and `operator()` (Lean parameters = constructor parameters then call parameters; every field is bound, in
+initialisation order, like a local: mem-initialiser or the in-class default initialiser; `this->field` = that binding),
+"Lambda <var>" = `operator()` of the closure bound to the local `<var>` of a function template specialization.
 
 For each function `f` it emits
   * one `def f_<local>` per C++ local (so proof obligations stay small and local),
@@ -110,6 +115,7 @@ class Fn:
         self.name, self.decl, self.reg, self.self_class = name, decl, reg, self_class
         self.defs, self.ub, self.env, self.counter, self.order = [], [], {}, {}, []
         self.tables = {}
+        self.fields = {}      # Functor jobs: field name -> True once bound (MemberExpr on `this` = the binding)
 
     def guarded(self, cond, fcond, thunk, negate=False):
         """translate a sub-tree that is evaluated only when `cond` holds (or fails): its UB obligations are guarded"""
@@ -173,6 +179,11 @@ class Fn:
             return (e, set(fv), b)
         if k == "MemberExpr":
             # field of a one-field class (this->_count, obj._wd)
+            if self.fields and inner[0]["kind"] == "CXXThisExpr":      # functor: the field's binding
+                if n.get("name") not in self.fields:
+                    raise Unsupported("field %s read before it is initialised" % n.get("name"))
+                e, fv, b = self.env[n["name"]]
+                return (e, set(fv), b)
             e, fv, b = self.ex(inner[0])
             return (e, fv, b)
         if k in ("ImplicitCastExpr", "CXXStaticCastExpr", "CStyleCastExpr", "CXXFunctionalCastExpr"):
@@ -227,7 +238,7 @@ class Fn:
                 bits, signed = self.ity(qtype(n))
                 lo, hi = (-(2 ** (bits - 1)), 2 ** (bits - 1) - 1) if signed else (0, 2 ** bits - 1)
                 return ("(%d : Int)" % (lo if nm == "min" else hi), set(), False)
-            ln = self.reg.get("fn:" + nm)
+            ln = self.reg.get("fn:%s(%s)" % (nm, ",".join(norm(qtype(a)) for a in inner[1:]))) or self.reg.get("fn:" + nm)
             if ln is not None:
                 parts = [self.ex(a) for a in inner[1:]]
                 fvs = set().union(*[p[1] for p in parts]) if parts else set()
@@ -285,6 +296,8 @@ class Fn:
             return ("(%s %s)" % (ln, argl), fvs, False)
         if k in ("CXXTemporaryObjectExpr", "CXXConstructExpr", "InitListExpr", "CXXFunctionalCastExpr"):
             cls = short(qtype(n))
+            if k == "InitListExpr" and len(inner) == 1 and norm(qtype(n)) in INT_TYPES:      # `Int{x}`: conversions are explicit in x
+                return self.ex(inner[0])
             if cls in CLASSES and len(inner) == 1:
                 src = inner[0]
                 if short(qtype(src)) == cls:          # copy/move construction
@@ -375,7 +388,7 @@ class Fn:
         k = s["kind"]
         if k == "DeclStmt":
             for d in s["inner"]:
-                if d["kind"] == "StaticAssertDecl":
+                if d["kind"] in ("StaticAssertDecl", "TypeAliasDecl"):
                     continue
                 if d["kind"] != "VarDecl":
                     raise Unsupported(d["kind"])
@@ -445,6 +458,10 @@ class Fn:
             if r0["kind"] == "UnaryOperator" and r0.get("opcode") == "*" and r0["inner"][0]["kind"] == "CXXThisExpr":
                 return self.env["self"]
             return self.ex(r0)
+        if k == "IfStmt" and s.get("isConstexpr") and s["inner"][0]["kind"] == "ConstantExpr" and "value" in s["inner"][0]:
+            # `if constexpr` in an instantiation: only the kept branch exists (the other one is absent or a NullStmt)
+            kept = s["inner"][1:2] if s["inner"][0]["value"] == "true" else s["inner"][2:3]
+            return self.body([x for x in kept if x["kind"] != "NullStmt"] + rest)
         if k == "IfStmt":
             c, fc, _ = self.ex(s["inner"][0])
             th = s["inner"][1]
@@ -459,8 +476,22 @@ class Fn:
             return self.body(s.get("inner", []) + rest)
         raise Unsupported("statement " + k)
 
+    def functor_parts(self):
+        """class template specialization -> (constructor, operator(), {field id: FieldDecl})"""
+        inner = self.decl.get("inner", [])
+        ctors = [c for c in inner if c["kind"] == "CXXConstructorDecl"
+                 and any(x["kind"] == "CXXCtorInitializer" for x in c.get("inner", [])) and not c.get("isImplicit")]
+        calls = [c for c in inner if c["kind"] == "CXXMethodDecl" and c.get("name") == "operator()"]
+        if len(ctors) != 1 or len(calls) != 1:
+            raise Unsupported("functor with %d constructors / %d operator()" % (len(ctors), len(calls)))
+        return ctors[0], calls[0], {c["id"]: c for c in inner if c["kind"] == "FieldDecl"}
+
     def run(self):
         params, comp, ctor_init = [], None, None
+        ctor = None
+        if self.decl["kind"] == "ClassTemplateSpecializationDecl":
+            ctor, call, fdecls = self.functor_parts()
+            self.decl = {"kind": "CXXMethodDecl", "inner": [c for c in ctor["inner"] if c["kind"] == "ParmVarDecl"] + call["inner"]}
         if self.self_class in AGG:
             for idx, (g, _) in enumerate(AGG[self.self_class]):
                 pn = "self_%s" % g
@@ -480,6 +511,8 @@ class Fn:
                         params.append(pn)
                         self.env[nm + "#%d" % idx] = (pn, {pn}, False)
                     continue
+                if ctor is not None and nm in params:
+                    raise Unsupported("duplicate parameter name " + nm)
                 params.append(nm)
                 self.env[nm] = (nm, {nm}, norm(qtype(c)) == "bool")
                 self.counter[nm] = 1
@@ -487,6 +520,22 @@ class Fn:
                 comp = c
             elif c["kind"] == "CXXCtorInitializer":
                 ctor_init = c
+        if ctor is not None:
+            if any(c["kind"] == "CompoundStmt" and c.get("inner") for c in ctor["inner"]):
+                raise Unsupported("functor constructor with a body")
+            for ci in [c for c in ctor["inner"] if c["kind"] == "CXXCtorInitializer"]:
+                fld, ini = ci.get("anyInit", {}), ci["inner"][0]
+                if fld.get("kind") != "FieldDecl" or fld.get("id") not in fdecls:
+                    raise Unsupported("initialiser of something other than a field")
+                if ini["kind"] == "CXXDefaultInitExpr":      # the in-class initialiser of the specialization's FieldDecl
+                    if not fdecls[fld["id"]].get("inner"):
+                        raise Unsupported("field %s without initialiser" % fld["name"])
+                    ini = fdecls[fld["id"]]["inner"][0]
+                e, fv, b = self.ex(ini)
+                self.bind(fld["name"], e, fv, b)
+                self.fields[fld["name"]] = True
+            if set(fdecls[i]["name"] for i in fdecls) != set(self.fields):
+                raise Unsupported("field without initialiser")
         if self.decl["kind"] == "CXXConstructorDecl":
             if ctor_init is None:
                 raise Unsupported("constructor without mem-initialiser")
@@ -588,6 +637,8 @@ def translate(repo, out_path, jobs=None, tu="#include <etl/chrono.hpp>\n", names
                 cache[filt] = ast_of(repo, tu, filt)
             cands = [d for d in cache[filt] if d.get("kind") == kind and pred(d) and d.get("name", lean) is not None
                      and any(c.get("kind") in ("CompoundStmt", "CXXCtorInitializer") for c in d.get("inner", []))]
+            if kind.split()[0] in SPEC_KINDS:
+                cands = spec_cands(cache[filt], kind, pred)
             if not cands:
                 errors[lean] = "%s: declaration not found (filter %s)" % (lean, filt)
                 continue
@@ -617,6 +668,49 @@ def exact_name(name):
     return lambda d: d.get("name") == name
 
 
+# ---- specializations of templates (the TU instantiates them explicitly, so the AST is fully resolved)
+SPEC_KINDS = {"FunctionSpec": "FunctionDecl", "Functor": "ClassTemplateSpecializationDecl", "Lambda": "FunctionDecl"}
+
+
+def targ_is(ty):
+    """the first template argument of the specialization is the type `ty`"""
+    def pred(d):
+        ta = [c for c in d.get("inner", []) if c["kind"] == "TemplateArgument"]
+        return bool(ta) and ta[0].get("type", {}).get("qualType") == ty
+    return pred
+
+
+def find_node(n, pred):
+    if pred(n):
+        return n
+    for c in n.get("inner", []):
+        r = find_node(c, pred)
+        if r is not None:
+            return r
+    return None
+
+
+def spec_cands(docs, kind, pred):
+    """candidates of a SPEC_KINDS job: specializations at top level (explicit instantiations) and inside their template
+    declaration, defined ones only; "Lambda v" continues to the `operator()` of the closure bound to the local `v`"""
+    akind = SPEC_KINDS[kind.split()[0]]
+    pool = list(docs)
+    for d in docs:
+        if d.get("kind", "").endswith("TemplateDecl"):
+            pool += d.get("inner", [])
+    out = [d for d in pool if d.get("kind") == akind and pred(d)
+           and any(c.get("kind") == "TemplateArgument" for c in d.get("inner", []))
+           and any(c.get("kind") in ("CompoundStmt", "CXXConstructorDecl") for c in d.get("inner", []))]
+    if kind.split()[0] == "Lambda":
+        var = kind.split()[1]
+        vds = [find_node(d, lambda n: n.get("kind") == "VarDecl" and n.get("name") == var) for d in out]
+        lams = [find_node(v, lambda n: n.get("kind") == "LambdaExpr") for v in vds if v is not None]
+        out = [find_node(l["inner"][0], lambda n: n.get("kind") == "CXXMethodDecl" and n.get("name") == "operator()")
+               for l in lams if l is not None and l.get("inner")]
+        out = [m for m in out if m is not None and any(c.get("kind") == "CompoundStmt" for c in m.get("inner", []))]
+    return out
+
+
 CCTYPE = ["isalnum", "isalpha", "isblank", "iscntrl", "isdigit", "isgraph", "islower", "isprint", "ispunct", "isspace",
           "isupper", "isxdigit", "tolower", "toupper"]
 CCTYPE_JOBS = [(f, "etl::" + f, "FunctionDecl", exact_name(f), None, ["fn:" + f]) for f in CCTYPE]
@@ -624,11 +718,42 @@ CWCTYPE = ["iswalnum", "iswalpha", "iswblank", "iswcntrl", "iswdigit", "iswgraph
            "iswspace", "iswupper", "iswxdigit", "towlower", "towupper"]
 CWCTYPE_JOBS = [(f, "etl::" + f, "FunctionDecl", exact_name(f), None, ["fn:" + f]) for f in CWCTYPE]
 
+# ---- C10: the overflow checkers of strings::to_integer, for every integral type the library can instantiate them with,
+# etl::abs as the signed checker calls it (int/long/long long: the <cmath>-style overloads of _math/abs.hpp, which call
+# detail::abs_impl; the narrower types: the template of _numeric/abs.hpp), and the `parseDigit` lambda of to_integer
+TOINT_SIGNED = [("i8", "signed char"), ("i16", "short"), ("i32", "int"), ("i64", "long"), ("ill", "long long"),
+                ("c8", "char"), ("wc", "wchar_t")]
+TOINT_UNSIGNED = [("u8", "unsigned char"), ("u16", "unsigned short"), ("u32", "unsigned int"), ("u64", "unsigned long"),
+                  ("ull", "unsigned long long"), ("c8u", "char8_t"), ("c16", "char16_t"), ("c32", "char32_t")]
+TOINT_ABS_OVERLOADS = ("int", "long", "long long")
+TOINT_TU = "#include <etl/strings.hpp>\n" + "".join(
+    "template struct etl::strings::detail::signed_overflow_checker<%s>;\n" % t for _, t in TOINT_SIGNED) + "".join(
+    "template struct etl::strings::detail::unsigned_overflow_checker<%s>;\n" % t for _, t in TOINT_UNSIGNED) + "".join(
+    "template auto etl::abs<%s>(%s) noexcept -> %s;\n" % (t, t, t) for _, t in TOINT_SIGNED if t not in TOINT_ABS_OVERLOADS) + "".join(
+    "template auto etl::strings::to_integer<%s>(etl::string_view, %s) noexcept -> etl::strings::to_integer_result<%s>;\n"
+    % (t, t, t) for _, t in TOINT_SIGNED + TOINT_UNSIGNED)
+TOINT_JOBS = (
+    [("abs_impl_" + s, "etl::detail::abs_impl", "FunctionSpec", targ_is(t), None, ["fn:abs_impl(%s)" % t])
+     for s, t in TOINT_SIGNED if t in TOINT_ABS_OVERLOADS]
+    + [("abs_" + s, "etl::abs", "FunctionDecl", sig_is(t), None, ["fn:abs(%s)" % t])
+       for s, t in TOINT_SIGNED if t in TOINT_ABS_OVERLOADS]
+    + [("abs_" + s, "etl::abs", "FunctionSpec", targ_is(t), None, ["fn:abs(%s)" % t])
+       for s, t in TOINT_SIGNED if t not in TOINT_ABS_OVERLOADS]
+    + [("schk_" + s, "etl::strings::detail::signed_overflow_checker", "Functor", targ_is(t), None, [])
+       for s, t in TOINT_SIGNED]
+    + [("uchk_" + s, "etl::strings::detail::unsigned_overflow_checker", "Functor", targ_is(t), None, [])
+       for s, t in TOINT_UNSIGNED]
+    + [(f, "etl::" + f, "FunctionDecl", exact_name(f), None, ["fn:" + f]) for f in ("isdigit", "isalpha", "isupper", "tolower")]
+    + [("parseDigit_" + s, "etl::strings::to_integer", "Lambda parseDigit", targ_is(t), None, [])
+       for s, t in TOINT_SIGNED + TOINT_UNSIGNED])
+
 
 if __name__ == "__main__":
     repo = sys.argv[1] if len(sys.argv) > 1 else "/repo"
     out = sys.argv[2] if len(sys.argv) > 2 else "/dev/stdout"
-    if len(sys.argv) > 3 and sys.argv[3] == "cwctype":
+    if len(sys.argv) > 3 and sys.argv[3] == "toint":
+        info = translate(repo, out, TOINT_JOBS, TOINT_TU, "Tetl.C10.Gen", "include/etl/_strings/to_integer.hpp")
+    elif len(sys.argv) > 3 and sys.argv[3] == "cwctype":
         info = translate(repo, out, CWCTYPE_JOBS, "#include <etl/cwctype.hpp>\n", "Tetl.C18.GenW", "include/etl/_cwctype")
     elif len(sys.argv) > 3 and sys.argv[3] == "cctype":
         info = translate(repo, out, CCTYPE_JOBS, "#include <etl/cctype.hpp>\n", "Tetl.C18.Gen", "include/etl/_cctype")
